@@ -98,6 +98,39 @@ theorem fork_switch_calls :
     triggerOnChainCalls = ["QueryBlockHeaderByHeight", "nextPvGreatThanFork", "removeFromCommonAncestor"] ∧
     tryAddBlockOnChainCalls = ["consensusVerify", "addBlockOnChain"] := by decide
 
+/-- `chainPvGreatThanRemote` decides in this order: prove value greater → true, smaller → false, then hash
+    greater → true, else false — the branch order and comparison operators of the model's `pvGreater` (operand
+    order is tied by the direct stream `pure-functions`). -/
+theorem pv_skeleton : chainPvGreatThanRemoteSkeleton =
+    ["if (_ > 0)", "return true", "if (_ < 0)", "return false", "if (_ > 0)", "return true", "return false"] := by decide
+
+/-- `getRequestIdFromTransactions`: running maximum with `>`, adopted only if non-zero and `>` the parent's
+    — `requestIdFrom`. -/
+theorem request_id_skeleton : getRequestIdFromTransactionsSkeleton =
+    ["if ((nil != _) && (0 != _(_)))", "if (_.RequestId > _)", "if ((0 != _) && (_ > _[\"fixed\"]))", "return _"] := by decide
+
+/-- `nextPvGreatThanFork`: both `<` guards on the common ancestor's height, both blocks present, else `true`. -/
+theorem next_pv_skeleton : nextPvGreatThanForkSkeleton =
+    ["if ((_ < _.latestBlock.Height) && (_ < _.latestBlock.Height))", "if ((_ != nil) && (_ != nil))",
+     "return _(_,_.Header)", "return true"] := by decide
+
+/-- `verifyBlock`'s guards in the model's order: cache hit → 0; no parent → (park) 2; Proposal008 executed check
+    → -1; missing transactions → 1; header request id → -1; tx root (pre-020) → -1; `checkStates` → -1; 0. -/
+theorem verify_skeleton : verifyBlockSkeleton =
+    ["if _.verifiedBlocks.Contains(_.Hash)", "return nil,0", "if (nil == _)", "if (_ != nil)", "return nil,2",
+     "if _.IsProposal008()", "if (_.transactionPool.GetExecuted(_.Hash) != nil)", "return nil,-1", "if _", "return _,1",
+     "if (_[\"fixed\"] != _.RequestIds[\"fixed\"])", "return nil,-1",
+     "if (!_.IsProposal020() && !_.validateTxRoot(_.TxTree,_))", "return nil,-1", "if !_", "return nil,-1",
+     "if (_(_.Transactions) != 0)", "return nil,0"] := by decide
+
+/-- `consensusVerify`: nil → failed; no parent → NoPreOnChain; already indexed → BlockExisted; then the two
+    consensus checks (stubbed to accept in the harness) — the order of the model's `addBlock`. -/
+theorem consensus_verify_skeleton : consensusVerifySkeleton =
+    ["if (_ == nil)", "return _.AddBlockFailed,false", "if !_.hasPreBlock(*_.Header)", "return _.NoPreOnChain,false",
+     "if (_.queryBlockHeaderByHash(_.Header.Hash) != nil)", "return _.BlockExisted,false", "if !_",
+     "return _.DependOnGroup,false", "if !_", "if ((_ == _.ErrSelectGroupNil) || (_ == _.ErrSelectGroupInequal))",
+     "return _.AddBlockFailed,false", "return _.ValidateBlockOk,true"] := by decide
+
 def allowedCallers (callee : String) : List String :=
   if callee = "blockChain.insertBlock" then ["blockChain.addBlockOnChain"]
   else if callee = "blockChain.remove" then ["blockChain.removeFromCommonAncestor", "blockChain.ensureChainConsistency"]
